@@ -409,12 +409,92 @@ theorem ipVersion_range (loc : String) (v : Nat) (h : ipVersion loc = some v) : 
   unfold ipVersion at h
   split at h
   · cases h
-  · dsimp only at h
-    split at h <;> split at h <;> simp at h <;> omega
+  · split at h
+    · simp at h; omega
+    · split at h
+      · simp at h; omega
+      · cases h
 
-/-- a location without `://` has no IP version (`urlparse(...).hostname` is `None`) -/
-theorem ipVersion_no_scheme (loc : String) (h : afterScheme loc.toList = none) : ipVersion loc = none := by
+/-- a location in which nothing follows the scheme as `//…` has no IP version (`urlparse(...).hostname` is `None`) -/
+theorem ipVersion_no_netloc (loc : String) (h : netlocOfUrl loc.toList = none) : ipVersion loc = none := by
   simp [ipVersion, h]
+
+theorem contains_false_of (l : List Char) (c : Char) (h : ∀ y ∈ l, y ≠ c) : l.contains c = false := by
+  cases hc : l.contains c with
+  | false => rfl
+  | true =>
+    rw [List.contains_iff_mem] at hc
+    exact absurd rfl (h c hc)
+
+/-- `urlsplit` of `http://<netloc>[/path]`: the netloc, when its characters are not separators and not TAB / CR / LF -/
+theorem netlocOfUrl_http (N : List Char) (path : Option (List Char))
+    (hN : ∀ c ∈ N, (!(c == '/' || c == '?' || c == '#')) = true ∧ c ≠ '\t' ∧ c ≠ '\r' ∧ c ≠ '\n') :
+    netlocOfUrl ("http://".toList ++ (N ++ (match path with
+      | some p => '/' :: p
+      | none => []))) = some N := by
+  have hscheme : "http://".toList = ['h', 't', 't', 'p', ':', '/', '/'] := by decide
+  have hfN : N.filter (fun c => !(c == '\t' || c == '\r' || c == '\n')) = N := by
+    rw [List.filter_eq_self]
+    intro c hc
+    obtain ⟨_, h1, h2, h3⟩ := hN c hc
+    simp [h1, h2, h3]
+  unfold netlocOfUrl urlClean
+  rw [hscheme]
+  simp only [List.cons_append, List.nil_append, List.filter_cons, List.filter_append, hfN]
+  simp only [show (!('h' == '\t' || 'h' == '\r' || 'h' == '\n')) = true by decide,
+    show (!('t' == '\t' || 't' == '\r' || 't' == '\n')) = true by decide,
+    show (!('p' == '\t' || 'p' == '\r' || 'p' == '\n')) = true by decide,
+    show (!(':' == '\t' || ':' == '\r' || ':' == '\n')) = true by decide,
+    show (!('/' == '\t' || '/' == '\r' || '/' == '\n')) = true by decide, if_true]
+  simp only [List.dropWhile_cons, show decide ('h'.toNat ≤ 32) = false by decide, Bool.false_eq_true, if_false]
+  unfold splitScheme
+  simp only [List.dropWhile_cons, List.takeWhile_cons,
+    show ('h' != ':') = true by decide, show ('t' != ':') = true by decide, show ('p' != ':') = true by decide,
+    show (':' != ':') = false by decide, if_true, Bool.false_eq_true, if_false]
+  simp only [show isAlphaC 'h' = true by decide, show ['t', 't', 'p'].all schemeChar = true by decide, Bool.and_self, if_true]
+  rw [takeWhile_all_append _ N _ (fun c hc => (hN c hc).1)]
+  cases path <;> simp
+
+theorem splitOnC_chars (c : Char) (l : List Char) : ∀ g ∈ splitOnC c l, ∀ y ∈ g, y ∈ l := by
+  unfold splitOnC
+  induction l with
+  | nil => intro g hg y hy; simp at hg; subst hg; simp at hy
+  | cons x t ih =>
+    intro g hg y hy
+    simp only [List.foldr_cons, splitStep] at hg
+    by_cases hx : (x == c) = true
+    · simp only [hx, if_true, List.mem_cons] at hg
+      rcases hg with rfl | hg
+      · simp at hy
+      · exact List.mem_cons_of_mem _ (ih g hg y hy)
+    · simp only [hx, Bool.false_eq_true, if_false] at hg
+      cases hacc : List.foldr (splitStep c) [[]] t with
+      | nil =>
+        rw [hacc] at hg
+        simp only [List.mem_singleton] at hg
+        subst hg
+        simp only [List.mem_singleton] at hy
+        subst hy; exact List.mem_cons_self
+      | cons a r =>
+        rw [hacc] at hg ih
+        simp only [List.mem_cons] at hg
+        rcases hg with rfl | hg
+        · simp only [List.mem_cons] at hy
+          rcases hy with rfl | hy
+          · exact List.mem_cons_self
+          · exact List.mem_cons_of_mem _ (ih a List.mem_cons_self y hy)
+        · exact List.mem_cons_of_mem _ (ih g (List.mem_cons_of_mem _ hg) y hy)
+
+/-- without a dot there is no embedded IPv4 tail -/
+theorem v6Parts_nodot (a : List Char) (h : ∀ y ∈ a, y ≠ '.') : v6Parts a = splitOnC ':' a := by
+  unfold v6Parts
+  simp only
+  cases hl : (splitOnC ':' a).getLast? with
+  | none => rfl
+  | some last =>
+    have hm : last ∈ splitOnC ':' a := List.mem_of_getLast? hl
+    have : last.contains '.' = false := contains_false_of last '.' (fun y hy => h y (splitOnC_chars ':' a last hm y hy))
+    simp only [this, Bool.false_eq_true, if_false]
 
 /-! #### dotted quads -/
 
@@ -494,73 +574,60 @@ theorem ipVersion_v4 (a b c d : Nat) (ha : a < 256) (hb : b < 256) (hc : c < 256
        (match path with
         | some p => '/' :: p
         | none => []))))) = some 4 := by
-  have hscheme : "http://".toList = ['h', 't', 't', 'p', ':', '/', '/'] := by decide
-  unfold ipVersion
-  simp only [String.toList_ofList, hscheme, List.cons_append, List.nil_append, afterScheme]
-  -- netloc
   let tail : List Char := match port with
     | some p => ':' :: dec p
     | none => []
-  have htail : ∀ y ∈ tail, (!(y == '/' || y == '?' || y == '#')) = true ∧ y ≠ '@' := by
-    intro y hy
+  have hT : ∀ y ∈ tail, ∀ x : Char, isDigit x = false → x ≠ ':' → y ≠ x := by
+    intro y hy x hx hx2
     cases port with
     | none => simp [tail] at hy
     | some p =>
       simp only [tail, List.mem_cons] at hy
       rcases hy with rfl | hy
-      · exact ⟨by decide, by decide⟩
-      · have h1 := dec_no p '/' (by decide) y hy
-        have h2 := dec_no p '?' (by decide) y hy
-        have h3 := dec_no p '#' (by decide) y hy
-        have h4 := dec_no p '@' (by decide) y hy
-        exact ⟨by simp [h1, h2, h3], h4⟩
-  have hq : ∀ y ∈ quad a b c d, (!(y == '/' || y == '?' || y == '#')) = true ∧ y ≠ '@' ∧ y ≠ ':' := by
+      · exact Ne.symm hx2
+      · exact dec_no p x hx y hy
+  have hN : ∀ y ∈ quad a b c d ++ tail, ∀ x : Char, isDigit x = false → x ≠ '.' → x ≠ ':' → y ≠ x := by
+    intro y hy x hx h1 h2
+    rcases List.mem_append.mp hy with h | h
+    · exact quad_no a b c d x hx h1 y h
+    · exact hT y h x hx h2
+  have e : "http://".toList ++ (quad a b c d ++ ((match port with
+        | some p => ':' :: dec p
+        | none => []) ++ (match path with
+      | some p => '/' :: p
+      | none => []))) = "http://".toList ++ ((quad a b c d ++ tail) ++ (match path with
+      | some p => '/' :: p
+      | none => [])) := by simp [tail]
+  have hnl := netlocOfUrl_http (quad a b c d ++ tail) path (by
     intro y hy
-    have h1 := quad_no a b c d '/' (by decide) (by decide) y hy
-    have h2 := quad_no a b c d '?' (by decide) (by decide) y hy
-    have h3 := quad_no a b c d '#' (by decide) (by decide) y hy
-    exact ⟨by simp [h1, h2, h3], quad_no a b c d '@' (by decide) (by decide) y hy,
-      quad_no a b c d ':' (by decide) (by decide) y hy⟩
-  have hnet : List.takeWhile (fun c => !(c == '/' || c == '?' || c == '#'))
-      (quad a b c d ++ (tail ++ (match path with
-        | some p => '/' :: p
-        | none => []))) = quad a b c d ++ tail := by
-    rw [← List.append_assoc, takeWhile_all_append _ (quad a b c d ++ tail)]
-    · cases path <;> simp
-    · intro y hy
-      rcases List.mem_append.mp hy with h | h
-      · exact (hq y h).1
-      · exact (htail y h).1
-  show (match afterLastAt (List.takeWhile _ (quad a b c d ++ (tail ++ _))) with
-    | '[' :: r6 => _
-    | _ => _) = some 4
-  rw [hnet]
+    have h1 := hN y hy '/' (by decide) (by decide) (by decide)
+    have h2 := hN y hy '?' (by decide) (by decide) (by decide)
+    have h3 := hN y hy '#' (by decide) (by decide) (by decide)
+    exact ⟨by simp [h1, h2, h3], hN y hy '\t' (by decide) (by decide) (by decide),
+      hN y hy '\r' (by decide) (by decide) (by decide), hN y hy '\n' (by decide) (by decide) (by decide)⟩)
+  unfold ipVersion
+  rw [String.toList_ofList, e, hnl]
+  simp only [Option.bind_some]
+  have hc1 : (quad a b c d ++ tail).contains '[' = false :=
+    contains_false_of _ _ (fun y hy => hN y hy '[' (by decide) (by decide) (by decide))
+  have hc2 : (quad a b c d ++ tail).contains ']' = false :=
+    contains_false_of _ _ (fun y hy => hN y hy ']' (by decide) (by decide) (by decide))
   have hat : afterLastAt (quad a b c d ++ tail) = quad a b c d ++ tail := by
     unfold afterLastAt
-    rw [splitOnC_nosep '@' _ (by
-      intro y hy
-      rcases List.mem_append.mp hy with h | h
-      · exact (hq y h).2.1
-      · exact (htail y h).2)]
+    rw [splitOnC_nosep '@' _ (fun y hy => hN y hy '@' (by decide) (by decide) (by decide))]
     rfl
-  rw [hat]
   have hhost : List.takeWhile (fun x => x != ':') (quad a b c d ++ tail) = quad a b c d := by
-    rw [takeWhile_all_append _ (quad a b c d) tail (fun y hy => by simpa using (hq y hy).2.2)]
+    rw [takeWhile_all_append _ (quad a b c d) tail
+      (fun y hy => by simpa using quad_no a b c d ':' (by decide) (by decide) y hy)]
     cases port <;> simp [tail]
-  -- the host does not start with '['
-  obtain ⟨h0, t0, hh0⟩ : ∃ h0 t0, dec a = h0 :: t0 := by
-    cases hda : dec a with
-    | nil => exact absurd hda (dec_ne_nil a)
-    | cons h0 t0 => exact ⟨h0, t0, rfl⟩
-  have hbr : h0 ≠ '[' := dec_no a '[' (by decide) h0 (by rw [hh0]; exact List.mem_cons_self)
-  have hform : quad a b c d ++ tail = h0 :: (t0 ++ '.' :: (dec b ++ '.' :: (dec c ++ '.' :: dec d)) ++ tail) := by
-    simp [quad, hh0]
-  split
-  · rename_i r6 heq
-    rw [hform] at heq
-    simp only [List.cons.injEq] at heq
-    exact absurd heq.1 hbr
-  · simp only [hhost, isV4_quad a b c d ha hb hc hd, if_true]
+  have hne : (quad a b c d).isEmpty = false := by
+    unfold quad
+    cases h : dec a with
+    | nil => exact absurd h (dec_ne_nil a)
+    | cons x r => rfl
+  unfold hostOfNetloc
+  simp only [hc1, hc2, bne_self_eq_false, Bool.false_eq_true, if_false, Bool.false_and, hat, hhost, hne,
+    isV4_quad a b c d ha hb hc hd, if_true]
 
 /-! #### bracketed IPv6 literals -/
 
@@ -700,106 +767,115 @@ theorem ipVersion_v6_of_parts (addr : List Char) (haddr : ∀ c ∈ addr, isHex 
        (match path with
         | some p => '/' :: p
         | none => [])))))))) = some 6 := by
-  have hscheme : "http://".toList = ['h', 't', 't', 'p', ':', '/', '/'] := by decide
-  unfold ipVersion
-  simp only [String.toList_ofList, hscheme, List.cons_append, List.nil_append, afterScheme]
   let zp : List Char := match zone with
     | some z => '%' :: dec z
     | none => []
   let pp : List Char := match port with
     | some p => ':' :: dec p
     | none => []
-  -- characters
-  have hA : ∀ y ∈ addr, (!(y == '/' || y == '?' || y == '#')) = true ∧ y ≠ '@' ∧ y ≠ ']' ∧ y ≠ '%' := by
-    intro y hy
+  have hA : ∀ y ∈ addr, ∀ x : Char, isHex x = false → x ≠ ':' → y ≠ x := by
+    intro y hy x hx hx2
     rcases haddr y hy with h | rfl
-    · have h1 := hex_ne y '/' h (by decide)
-      have h2 := hex_ne y '?' h (by decide)
-      have h3 := hex_ne y '#' h (by decide)
-      exact ⟨by simp [h1, h2, h3], hex_ne y '@' h (by decide), hex_ne y ']' h (by decide), hex_ne y '%' h (by decide)⟩
-    · exact ⟨by decide, by decide, by decide, by decide⟩
-  have hD : ∀ n : Nat, ∀ y ∈ dec n, (!(y == '/' || y == '?' || y == '#')) = true ∧ y ≠ '@' ∧ y ≠ ']' ∧ y ≠ '%' := by
-    intro n y hy
-    have h1 := dec_no n '/' (by decide) y hy
-    have h2 := dec_no n '?' (by decide) y hy
-    have h3 := dec_no n '#' (by decide) y hy
-    exact ⟨by simp [h1, h2, h3], dec_no n '@' (by decide) y hy, dec_no n ']' (by decide) y hy,
-      dec_no n '%' (by decide) y hy⟩
-  have hZ : ∀ y ∈ zp, (!(y == '/' || y == '?' || y == '#')) = true ∧ y ≠ '@' ∧ y ≠ ']' := by
-    intro y hy
+    · exact hex_ne y x h hx
+    · exact Ne.symm hx2
+  have hZ : ∀ y ∈ zp, ∀ x : Char, isDigit x = false → x ≠ '%' → y ≠ x := by
+    intro y hy x hx hx2
     cases zone with
     | none => simp [zp] at hy
     | some z =>
       simp only [zp, List.mem_cons] at hy
       rcases hy with rfl | hy
-      · exact ⟨by decide, by decide, by decide⟩
-      · exact ⟨(hD z y hy).1, (hD z y hy).2.1, (hD z y hy).2.2.1⟩
-  have hP : ∀ y ∈ pp, (!(y == '/' || y == '?' || y == '#')) = true ∧ y ≠ '@' := by
-    intro y hy
+      · exact Ne.symm hx2
+      · exact dec_no z x hx y hy
+  have hP : ∀ y ∈ pp, ∀ x : Char, isDigit x = false → x ≠ ':' → y ≠ x := by
+    intro y hy x hx hx2
     cases port with
     | none => simp [pp] at hy
     | some p =>
       simp only [pp, List.mem_cons] at hy
       rcases hy with rfl | hy
-      · exact ⟨by decide, by decide⟩
-      · exact ⟨(hD p y hy).1, (hD p y hy).2.1⟩
-  -- netloc
-  have hnetmem : ∀ y ∈ '[' :: (addr ++ (zp ++ ']' :: pp)), (!(y == '/' || y == '?' || y == '#')) = true ∧ y ≠ '@' := by
-    intro y hy
+      · exact Ne.symm hx2
+      · exact dec_no p x hx y hy
+  -- every character of the netloc differs from any `x` that is no hex digit and none of `[ ] % :`
+  have hN : ∀ y ∈ '[' :: (addr ++ (zp ++ ']' :: pp)), ∀ x : Char, isHex x = false → isDigit x = false →
+      x ≠ '[' → x ≠ ']' → x ≠ '%' → x ≠ ':' → y ≠ x := by
+    intro y hy x h1 h2 h3 h4 h5 h6
     simp only [List.mem_cons, List.mem_append] at hy
     rcases hy with rfl | h | h | rfl | h
-    · exact ⟨by decide, by decide⟩
-    · exact ⟨(hA y h).1, (hA y h).2.1⟩
-    · exact ⟨(hZ y h).1, (hZ y h).2.1⟩
-    · exact ⟨by decide, by decide⟩
-    · exact hP y h
-  have hnet : List.takeWhile (fun c => !(c == '/' || c == '?' || c == '#'))
-      ('[' :: (addr ++ (zp ++ ']' :: (pp ++ (match path with
+    · exact Ne.symm h3
+    · exact hA y h x h1 h6
+    · exact hZ y h x h2 h5
+    · exact Ne.symm h4
+    · exact hP y h x h2 h6
+  have e : "http://".toList ++ ('[' :: (addr ++ ((match zone with
+        | some z => '%' :: dec z
+        | none => []) ++ (']' :: ((match port with
+        | some p => ':' :: dec p
+        | none => []) ++ (match path with
         | some p => '/' :: p
-        | none => []))))) = '[' :: (addr ++ (zp ++ ']' :: pp)) := by
-    have e : '[' :: (addr ++ (zp ++ ']' :: (pp ++ (match path with
+        | none => [])))))) = "http://".toList ++ (('[' :: (addr ++ (zp ++ ']' :: pp))) ++ (match path with
         | some p => '/' :: p
-        | none => [])))) = ('[' :: (addr ++ (zp ++ ']' :: pp))) ++ (match path with
-        | some p => '/' :: p
-        | none => []) := by simp
-    rw [e, takeWhile_all_append _ _ _ (fun y hy => (hnetmem y hy).1)]
-    cases path <;> simp
-  show (match afterLastAt (List.takeWhile _ ('[' :: (addr ++ (zp ++ ']' :: (pp ++ _))))) with
-    | '[' :: r6 => _
-    | _ => _) = some 6
-  rw [hnet]
-  have hat : afterLastAt ('[' :: (addr ++ (zp ++ ']' :: pp))) = '[' :: (addr ++ (zp ++ ']' :: pp)) := by
-    unfold afterLastAt
-    rw [splitOnC_nosep '@' _ (fun y hy => (hnetmem y hy).2)]
-    rfl
-  rw [hat]
-  simp only
+        | none => [])) := by simp [zp, pp]
+  have hnl := netlocOfUrl_http ('[' :: (addr ++ (zp ++ ']' :: pp))) path (by
+    intro y hy
+    have h1 := hN y hy '/' (by decide) (by decide) (by decide) (by decide) (by decide) (by decide)
+    have h2 := hN y hy '?' (by decide) (by decide) (by decide) (by decide) (by decide) (by decide)
+    have h3 := hN y hy '#' (by decide) (by decide) (by decide) (by decide) (by decide) (by decide)
+    exact ⟨by simp [h1, h2, h3],
+      hN y hy '\t' (by decide) (by decide) (by decide) (by decide) (by decide) (by decide),
+      hN y hy '\r' (by decide) (by decide) (by decide) (by decide) (by decide) (by decide),
+      hN y hy '\n' (by decide) (by decide) (by decide) (by decide) (by decide) (by decide)⟩)
+  unfold ipVersion
+  rw [String.toList_ofList, e, hnl]
+  simp only [Option.bind_some]
   -- host between the brackets
   have hhost : List.takeWhile (fun x => x != ']') (addr ++ (zp ++ ']' :: pp)) = addr ++ zp := by
     rw [← List.append_assoc, takeWhile_all_append _ (addr ++ zp)]
     · simp
     · intro y hy
       rcases List.mem_append.mp hy with h | h
-      · simpa using (hA y h).2.2.1
-      · simpa using (hZ y h).2.2
-  rw [hhost]
-  -- `ip_address`
+      · simpa using hA y h ']' (by decide) (by decide)
+      · simpa using hZ y h ']' (by decide) (by decide)
+  have hbr : bracketed ('[' :: (addr ++ (zp ++ ']' :: pp))) = addr ++ zp := by
+    simp [bracketed, hhost]
+  have hdot : ∀ y ∈ addr, y ≠ '.' := fun y hy => hA y hy '.' (by decide) (by decide)
   have hv6 : isV6 (addr ++ zp) = true := by
     unfold isV6
     cases zone with
     | none =>
       simp only [zp, List.append_nil]
-      rw [splitOnC_nosep '%' addr (fun y hy => (hA y hy).2.2.2)]
+      rw [splitOnC_nosep '%' addr (fun y hy => hA y hy '%' (by decide) (by decide))]
+      simp only [v6Parts_nodot addr hdot]
       exact hok
     | some z =>
       simp only [zp]
-      rw [splitOnC_sep '%' addr (dec z) (fun y hy => (hA y hy).2.2.2),
-        splitOnC_nosep '%' (dec z) (fun y hy => (hD z y hy).2.2.2)]
-      simp only [hok, Bool.and_true, Bool.not_eq_true']
+      rw [splitOnC_sep '%' addr (dec z) (fun y hy => hA y hy '%' (by decide) (by decide)),
+        splitOnC_nosep '%' (dec z) (dec_no z '%' (by decide))]
+      simp only [v6Parts_nodot addr hdot, hok, Bool.and_true, Bool.not_eq_true']
       cases h : dec z with
       | nil => exact absurd h (dec_ne_nil z)
       | cons a b => rfl
-  simp [hv6]
+  have hv4 : isV4 (addr ++ zp) = false := by
+    unfold isV4
+    rw [splitOnC_nosep '.' (addr ++ zp) (by
+      intro y hy
+      rcases List.mem_append.mp hy with h | h
+      · exact hdot y h
+      · exact hZ y h '.' (by decide) (by decide))]
+    rfl
+  have hat : afterLastAt ('[' :: (addr ++ (zp ++ ']' :: pp))) = '[' :: (addr ++ (zp ++ ']' :: pp)) := by
+    unfold afterLastAt
+    rw [splitOnC_nosep '@' _ (fun y hy =>
+      hN y hy '@' (by decide) (by decide) (by decide) (by decide) (by decide) (by decide))]
+    rfl
+  have hne : (addr ++ zp).isEmpty = false := by
+    cases ha : addr with
+    | nil => rw [ha] at hok; exact absurd hok (by decide)
+    | cons x r => rfl
+  unfold hostOfNetloc
+  simp only [hat, hbr, hv6, hne, List.contains_cons, beq_self_eq_true, Bool.true_or, bne_self_eq_false,
+    Bool.false_eq_true, if_false, Bool.not_true, Bool.and_false, if_true, hv4]
+  simp [hv4, hv6]
 
 /-- … for the compressed form `g1:…:gi::h1:…:hj` (both sides non-empty, at most 7 hextets) -/
 theorem ipVersion_v6 (L R : List (List Char)) (hL : ∀ g ∈ L, hextetOk g = true) (hR : ∀ g ∈ R, hextetOk g = true)
